@@ -8,7 +8,7 @@ CHECKS = {
  "C01": {
   "category": "translation_validation",
   "technique": "static translation validation: lifting generated parsers from MIR to parser terms and comparing with the terms the grammar denotes; scenario enumeration of terminal-matcher decision trees; generator-level identity flows",
-  "text": "Every rule of every analysed grammar (1157 rules: 27+2 test grammars, macro test, the bootstrapped front end, 16 corpus modules incl. every construct nested in every other in skipping and non-skipping rules) is lifted from the MIR of its generated functions to a term of a small parser algebra (literal/range/$/char/rule ref, whitespace-skipped atom, seq, ordered choice, optional, star, plus, not, and, @char class, extern) by rewriting over the reconstructed dataflow - state threading of `?` chains, ChoiceHelper chains, or_else handlers, the closure loop, lookahead matches - and compared with the term an independent reader of the grammar text derives (literals decoded independently, includes expanded under the includer's mode). Any function the lifter cannot interpret is an alarm (UNLIFTABLE). Under the terminal contracts (decided by enumerating 264 scenarios of the matchers' decision trees) and the combinator axioms, equality of terms means the generated parser recognises exactly the PEG language, for all inputs of the analysed grammars. Generator level: literal and range constants reach the output unchanged (or ASCII-lower-cased), parts/choices are visited in order.",
+  "text": "Every rule of every analysed grammar (1157 rules: 27+2 test grammars, macro test, the bootstrapped front end, 16 corpus modules incl. every construct nested in every other in skipping and non-skipping rules) is lifted from the MIR of its generated functions to a term of a small parser algebra (literal/range/$/char/rule ref, whitespace-skipped atom, seq, ordered choice, optional, star, plus, not, and, @char class, extern) by rewriting over the reconstructed dataflow - state threading of `?` chains, ChoiceHelper chains, or_else handlers, the closure loop, lookahead matches - and compared with the term an independent reader of the grammar text derives (literals decoded independently, includes expanded under the includer's mode). Any function the lifter cannot interpret is an alarm (UNLIFTABLE). Under the terminal contracts (decided by enumerating 264 scenarios of the matchers' decision trees) and the combinator axioms, equality of terms means the generated parser recognises exactly the PEG language, for all inputs of the analysed grammars. Generator level: literal and range constants reach the output unchanged (or ASCII-lower-cased), parts/choices are visited in order. Entry clause (C01.entry): the friendly entry points hand their own argument to parse_advanced once and return its result unchanged, every generated parse_advanced starts from ParseState::new(its own input), ParseState::new is called nowhere else, and the cursor invariant (shared with C04) holds.",
   "note": TRUST + "Termination is assumed (well-formedness). Grammars outside the analysed set are covered only as far as templates are compositional; the corpus enumerates construct x construct x skip mode.",
  },
  "C17": {
@@ -38,7 +38,7 @@ CHECKS = {
  "C12": {
   "category": "translation_validation",
   "technique": "finite-function extraction (match tables), forward symbolic evaluation of all 32 digit-presence paths of the unicode escape decoder, grammar-of-grammars token-atomicity lint, header CRC",
-  "text": "Escape decoding is decided exactly (6 simple escapes against the spellings read from grammar.ebnf; \\xXX = d1*16+d2; unicode escapes = left fold acc*16+digit over present digits on all 32 paths, from_u32 None -> error; HexChar = [0-9a-fA-F]); Rule::flags maps each directive spelling to exactly its flag; the token rules of grammar.ebnf are @no_skip_ws (no skipping inside a token); the shipped front end's header CRC equals CRC-32 of today's grammar.ebnf. The front end's structure (choice loosest, then sequence, then prefix lookaheads; brackets; both quote styles; directive order; Whitespace/Comment before every token of skipping rules) is decided by lifting all 50 rule functions of generated.rs from MIR and comparing them with the terms grammar.ebnf denotes (C12.front).",
+  "text": "Escape decoding is decided exactly (6 simple escapes against the spellings read from grammar.ebnf; \\xXX = d1*16+d2; unicode escapes = left fold acc*16+digit over present digits on all 32 paths, from_u32 None -> error; HexChar = [0-9a-fA-F]); Rule::flags maps each directive spelling to exactly its flag; the token rules of grammar.ebnf are @no_skip_ws (no skipping inside a token); the shipped front end's header CRC equals CRC-32 of today's grammar.ebnf. The front end's structure (choice loosest, then sequence, then prefix lookaheads; brackets; both quote styles; directive order; Whitespace/Comment before every token of skipping rules) is decided by lifting all 50 rule functions of generated.rs from MIR and comparing them with the terms grammar.ebnf denotes (C12.front). C12.use: every named field of the syntax-tree types generated from grammar.ebnf (36) is read by the generator's own code - a field that is filled and never read is grammar text that is parsed and ignored.",
   "note": TRUST + "That grammar.ebnf denotes the prose of the syntax reference is not decided beyond the token rule.",
  },
  "C13": {
@@ -50,7 +50,7 @@ CHECKS = {
  "C18": {
   "category": "other",
   "technique": "dominance of file mutations by success edges, control dependence of the up-to-date shortcut, propagation of fallible steps",
-  "text": "Freshness over histories is NOT decided. Decided are necessary structural clauses of Compile::run_on_single_file / run_recursively: the only file-mutating call is dominated by the success of Grammar::from_str and generate_code and nothing else in the crate mutates files; the early return is control-dependent on equality of the destination's leading bytes with a value data-dependent on grammar text and prefix, and the written bytes start with that same value; all fallible steps are ?-propagated; directory mode calls the same routine for .ebnf entries and propagates.",
+  "text": "Freshness over histories is NOT decided. Decided are necessary structural clauses of Compile::run_on_single_file / run_recursively: the only file-mutating call is dominated by the success of Grammar::from_str and generate_code and nothing else in the crate mutates files; the early return is control-dependent on equality of the destination's leading bytes with a value data-dependent on grammar text and prefix, and the written bytes start with that same value; all fallible steps are ?-propagated; directory mode calls the same routine for .ebnf entries and propagates. The header's digest is fed the whole grammar text in one piece (a digest over lines / a trimmed or normalised view is a violation).",
   "note": TRUST + "Histories (stale-prefix, CRC collisions, settings not in the key) are out of reach and documented in DESIGN.md §4.",
  },
  "C04": {
@@ -62,13 +62,13 @@ CHECKS = {
  "C05": {
   "category": "other",
   "technique": "dataflow identities over MIR of cached wrappers (key/value/ownership) + read-set rule for error payloads",
-  "text": "Decides the structural clauses whose conjunction is memo transparency: every get/insert key is cache_key(entry state) and cache_key is the absolute offset; cache fields are private to their wrapper and never evicted; a miss stores a clone of exactly the returned value and a hit returns a clone of exactly the stored value (result + resumed state); every parse_advanced starts from an empty cache; error payloads are only moved, folded or displayed. The transparency statement itself (same tree with/without @memoize) is argued from these clauses plus purity (C20), not computed for particular grammars.",
+  "text": "Decides the structural clauses whose conjunction is memo transparency: every get/insert key is cache_key(entry state) and cache_key is the absolute offset; cache fields are private to their wrapper and never evicted; a miss stores a clone of exactly the returned value and a hit returns a clone of exactly the stored value (result + resumed state); every parse_advanced starts from an empty cache; error payloads are only moved, folded or displayed. The transparency statement itself (same tree with/without @memoize) is argued from these clauses plus purity (C20), not computed for particular grammars. Also: the constructor ParseState::new is called by the parse_advanced entry points only (the key is an absolute offset), and no function modifies a field of ParseGlobal that is not one of its type parameters (nothing but the cache carries state from one rule evaluation to the next).",
   "note": TRUST + "User hooks assumed pure (stated in the property). I-level on the analysed wrappers.",
  },
  "C07": {
   "category": "other",
   "technique": "loop rule (seed dominance, guarded cyclic paths, exit value) over MIR of @leftrec wrappers + finite-domain evaluation of the progress test",
-  "text": "For every analysed @leftrec wrapper and all inputs: a sentinel failure is stored under the entry key before the first body evaluation; every cyclic path of the growth loop re-stores a new best result guarded by is_further_than(new.state, best.state) or by (new Ok, best Err); every exit returns the best result as last stored; is_further_than is decided strict over the 3 orderings of two offsets. Hence the loop terminates after at most input-length+2 iterations given a terminating body. The shape of the grown tree (left nesting) is not decided here.",
+  "text": "For every analysed @leftrec wrapper and all inputs: a sentinel failure is stored under the entry key before the first body evaluation; every cyclic path of the growth loop re-stores a new best result guarded by is_further_than(new.state, best.state) or by (new Ok, best Err); every exit returns the best result as last stored; is_further_than is decided strict over the 3 orderings of two offsets. Hence the loop terminates after at most input-length+2 iterations given a terminating body. The shape of the grown tree (left nesting) is not decided here. Every rule the analysed grammars mark @leftrec (64) has the growing wrapper whatever other directives it carries; an exit replaces the best result only on a path where it is a failure (a rejected growth step keeps the accepted match); what a trip stores last is the best result it ends with.",
   "note": TRUST + "Termination of the rule body is the property's well-formedness assumption.",
  },
  "C20": {
@@ -80,7 +80,7 @@ CHECKS = {
  "C06": {
   "category": "other",
   "technique": "must-pass-through / dominance rules over MIR of generated memo wrappers",
-  "text": "Decides on every CFG path of every analysed @memoize wrapper that a cache miss is followed by an insert under the lookup key before any normal return, that nothing else runs before the lookup, that the hit path only clones, and that nothing else touches or evicts the cache field. Sound for all inputs of the analysed wrappers (27 test grammars, bootstrap parser, macro test; corpus in thorough); the wrapper template is one per rule kind x directive set.",
+  "text": "Decides on every CFG path of every analysed @memoize wrapper that a cache miss is followed by an insert under the lookup key before any normal return, that nothing else runs before the lookup, that the hit path only clones, and that nothing else touches or evicts the cache field. Sound for all inputs of the analysed wrappers (27 test grammars, bootstrap parser, macro test; corpus in thorough); the wrapper template is one per rule kind x directive set. A hit path calls no user function; @leftrec wrappers and methods of ParseCache may not evict or touch other rules' entries.",
   "note": TRUST + "I-level verdict: covers the analysed generated instances; generalises to all grammars only as far as the wrapper template is compositional.",
  },
  "C08": {
@@ -92,7 +92,7 @@ CHECKS = {
  "C09": {
   "category": "other",
   "technique": "dataflow identity rules over MIR (closure-capture resolution) for range/slice measurement + runtime identities",
-  "text": "For every analysed @position/@string wrapper: the range and the string slice are range_until/slice_until(entry state of the rule, state of the body's Ok), taken inside the map_with_state callback of the body evaluated from a clone of that same entry state, and stored unchanged in `position`; the runtime functions are exactly start_index..start_index, partial_string[..difference] and state-preserving maps; PegPosition returns the stored range or delegates per variant. Byte exactness follows from the cursor invariant (C04); 'after the caller's whitespace' from C08.",
+  "text": "For every analysed @position/@string wrapper: the range and the string slice are range_until/slice_until(entry state of the rule, state of the body's Ok), taken inside the map_with_state callback of the body evaluated from a clone of that same entry state, and stored unchanged in `position`; the runtime functions are exactly start_index..start_index, partial_string[..difference] and state-preserving maps; PegPosition returns the stored range or delegates per variant. Byte exactness follows from the cursor invariant (C04); 'after the caller's whitespace' from C08. The caller-side whitespace skip (C09.skip, shared with C08.inst) and the entry clause (C09.entry: offsets refer to the string the caller passed) are checked under C09 as well.",
   "note": TRUST + "Nesting/order of ranges follows from state threading (C01) and is not separately decided.",
  },
  "C10": {
@@ -110,13 +110,13 @@ CHECKS = {
  "C15": {
   "category": "other",
   "technique": "must-pass-through on tool entry points, control-dependence of error returns on restriction facts, sibling agreement of flag reads, panic inventory, identifier-sink classification via format templates, call-graph SCCs",
-  "text": "Decides structurally: (exit) on the Err edge of the tools' entry points every path reaches a non-zero exit, Compile::run returns the inner result, no fallible call result (78 tracked) is ignored; (restrict) each of the 12 documented restrictions has an error return control-dependent on its defining facts; (cached) the three sites deciding 'rule is cached' read the same flags; (panic) all 23 panic-capable constructs reachable from the compiler entry points are discharged by a reasoned entry; (ident) identifier constructors are safe where the format template starts with a literal identifier prefix, others are reported; (rec) recursion through by-name lookups needs a cycle guard. Three genuine defects were repaired (D2 exit status, D3 @leftrec without Clone - fix commits in /repo), three are recorded as known findings (D5 unvalidated identifiers/keywords, D6 include cycle, D7 recursion depth).",
+  "text": "Decides structurally: (exit) on the Err edge of the tools' entry points every path reaches a non-zero exit, Compile::run returns the inner result, no fallible call result (78 tracked) is ignored; (restrict) each of the 12 documented restrictions has an error return control-dependent on its defining facts; (cached) the three sites deciding 'rule is cached' read the same flags; (panic) all 23 panic-capable constructs reachable from the compiler entry points are discharged by a reasoned entry; (ident) identifier constructors are safe where the format template starts with a literal identifier prefix, others are reported; (rec) recursion through by-name lookups needs a cycle guard. Three genuine defects were repaired (D2 exit status, D3 @leftrec without Clone - fix commits in /repo), three are recorded as known findings (D5 unvalidated identifiers/keywords, D6 include cycle, D7 recursion depth). The reasoned table of panic sites is backed by local proofs where the reason is local (rules/guards.py: 9 of 12 constant-index accesses are proved from the tests their own function makes; the child-sorting closures of generate_code_spec send an Err child to the side generated with `?`).",
   "note": TRUST + "'never hangs' beyond absence of unguarded by-name recursion is not decided. Known findings in /verif/known_findings.json are matched by exact key.",
  },
  "C16": {
   "category": "other",
   "technique": "type-resolved scan for unordered-container iteration and nondeterminism sources over the generator's call graph; identity-flow rule on the three integration routes",
-  "text": "Determinism is argued from the absence of its only possible causes in the generator's own code, decided over every call (4821) and every function reachable from generate_code/from_str/generate_source_header (540): no iteration over HashMap/HashSet, no such container stored in a generator data structure, no time/env/random/id/address source; and route independence from an identity-flow rule: cli, build helper and macro parse the unmodified text, call the single entry point with default(+derives) settings and emit its Display/token stream unchanged.",
+  "text": "Determinism is argued from the absence of its only possible causes in the generator's own code, decided over every call (4821) and every function reachable from generate_code/from_str/generate_source_header (540): no iteration over HashMap/HashSet, no such container stored in a generator data structure, no time/env/random/id/address source; and route independence from an identity-flow rule: cli, build helper and macro parse the unmodified text, call the single entry point with default(+derives) settings and emit its Display/token stream unchanged. No state outlives a call (no thread_local / static mut / static with interior mutability in generator, macro, CLI), and every builder method of Compile leaves the fields it is not about unchanged (the order of builder calls cannot matter).",
   "note": TRUST + "Determinism of dependencies (proc_macro2, quote, crc) is assumed; BUILD_TIME is a compile-time constant of the generator build.",
  },
  "C19": {
